@@ -193,3 +193,6 @@ func init() {
 	Register("schedrun", schedRun)
 	_ = fmt.Sprint
 }
+
+// newRepoMutex: a mutex of the type the siglens packages use in this build (the shim's).
+func newRepoMutex() *vsync.Mutex { return &vsync.Mutex{} }
